@@ -318,7 +318,7 @@ func (p *llParser) parseSeq(nested bool) []tNode {
 			}
 		}
 		if ch != '$' {
-			lit(string(ch))
+			lit(p.s[p.i : p.i+1])
 			p.i++
 			continue
 		}
